@@ -113,7 +113,7 @@ CLAIMED['C11'] = ('E3 unitdiff', 'exhaustive enumeration of routing bits x rando
                   'Every take_*_exception function and take_reset is called directly; per exception kind the bits its rule reads and every source mode are enumerated completely '
                   '(thorough) on four extension configurations, all other state random per cell; the complete post-state is compared with the reference entry rules (mode, SPSR, '
                   'LR/ELR_hyp, A/I/F, IT/J, T/E, vector base incl. V/VBAR/MVBAR/HVBAR/VE, SCR.NS). Entries through instructions are covered by C12/C08/C14.',
-                  'Trusted: vf/ref/machine.py exception entry (B1.9); external / asynchronous / debug Data Aborts are generated through take_data_abort_exception's flags (not raised by devices).', 'DESIGN.md section 5 C11')
+                  'Trusted: vf/ref/machine.py exception entry (B1.9); external / asynchronous / debug Data Aborts are generated through the flags of take_data_abort_exception (not raised by devices).', 'DESIGN.md section 5 C11')
 
 CLAIMED['C13'] = ('E3 unitdiff + E1', 'exhaustive enumeration of the access-policy matrix with random data, differential against a reference memory model',
                   'mem_a / mem_u / mem_u_unpriv get and set are called for every cell of size x offset 0..7 x base class (mid, device end, top of memory, zero) x E x A x U x arch 5/6/7 x '
